@@ -208,6 +208,7 @@ def run_tlc(module, cfg=None, env=None, workers=1, timeout=3600, simulate=None, 
         m = re.findall(r"(\d+) states generated, (\d+) distinct states found", out)
         states, distinct = (int(m[-1][0]), int(m[-1][1])) if m else (0, 0)
         violated = re.findall(r"Invariant (\S+) is violated", out) + re.findall(r"Action property (\S+) is violated", out)
+        violated += re.findall(r"Temporal property (\S+) was violated", out)
         if "Temporal properties were violated" in out:
             violated.append("temporal")
         finished = "Model checking completed" in out or "Finished in" in out or simulate
